@@ -2,7 +2,9 @@
 //
 // Bounded-history part (level model_checking): every op sequence up to the depth bound over a small key
 // domain is executed on the real tsdb.SeriesFile in a fresh directory and compared, after every step, with
-// a reference model {key -> live id, ids ever handed out} written from the property statement.
+// a reference model {key -> live id, ids ever handed out} written from the property statement. The segment-roll
+// families run the same on a build whose first-segment size is a variable (h/c13/shim.json; 128 bytes instead of
+// 4 MiB) and enumerate every number of bytes left free in the newest segment around a roll-over (segDomain).
 //
 // Schedule part (engine vsched): one writer thread against the partition's background index compaction.
 // Crash family (engine crashfs): every prefix / torn / unsynced image of recorded histories.
@@ -84,13 +86,36 @@ type Domain struct {
 	Name string
 	Keys []KeyDef
 	Part []int
+	// segment-roll domains only (Focus >= 0): the one partition all keys live in, the prefix that builds the
+	// layout, and the layout the prefix must produce (number of segments, free bytes in the newest one).
+	Focus              int
+	Pre                []Op
+	WantSegs, WantFree int
+	OpKeys             int            // number of op keys (the closing phase creates these again); 0 = all
+	fullIdx            map[string]int // full key string -> key index
+}
+
+// keyByFull returns the index of the key whose full "name,tag=value" string is s.
+func (d *Domain) keyByFull(s string) (int, bool) {
+	domMu.Lock()
+	defer domMu.Unlock()
+	if d.fullIdx == nil {
+		d.fullIdx = map[string]int{}
+		for i, k := range d.Keys {
+			d.fullIdx[k.full()] = i
+		}
+	}
+	i, ok := d.fullIdx[s]
+	return i, ok
 }
 
 // Domain names.
 const (
-	DomSmall = "small" // 4 short keys, K[0] and K[1] in the same partition, K[2], K[3] in two other partitions
-	DomBig   = "big"   // segment-roll domain: all keys in ONE partition; see bigDomain
-	DomP7    = "p7"    // crash family only: 34 short keys, all in partition 7 (ids 8, 16, .., 256, 264, 272): the id crosses a byte boundary
+	DomSmall = "small"    // 4 short keys, K[0] and K[1] in the same partition, K[2], K[3] in two other partitions
+	DomBig   = "big"      // segment-roll domain: all keys in ONE partition; see bigDomain
+	DomTight = "bigtight" // the big domain + one pad series that leaves exactly bigTightFree bytes of the shipped 4 MiB segment 0000
+	DomP7    = "p7"       // crash family only: 34 short keys, all in partition 7 (ids 8, 16, .., 256, 264, 272): the id crosses a byte boundary
+	DomSeg   = "seg"      // segment-roll domains "seg/<variant>/<n>" of the tiny-segment build: see segDomain
 )
 
 // p7Keys is the size of the p7 domain: keys 0..31 get ids 8..256 (0x100), keys 32 and 33 the ids 0x108 and 0x110.
@@ -99,8 +124,9 @@ const p7Keys = 34
 // bigPrefill 64 KiB-class keys fill the fixed 4 MiB first segment of the partition up to less than one such
 // entry, so that the next big key rolls over to segment 0001 while a short key or a tombstone still fits.
 const (
-	bigPad     = 65000
-	bigPrefill = 64
+	bigPad       = 65000
+	bigPrefill   = 64
+	bigTightFree = 4
 )
 
 var (
@@ -119,11 +145,19 @@ func getDomain(name string) *Domain {
 	case DomSmall:
 		d = smallDomain()
 	case DomBig:
-		d = bigDomain()
+		d = bigDomain(false)
+	case DomTight:
+		d = bigDomain(true)
 	case DomP7:
 		d = p7Domain()
 	default:
-		panic("unknown domain " + name)
+		if !strings.HasPrefix(name, DomSeg+"/") {
+			panic("unknown domain " + name)
+		}
+		d = segDomain(name)
+	}
+	if d.Pre == nil {
+		d.Focus = -1
 	}
 	d.Name = name
 	domCache[name] = d
@@ -178,7 +212,11 @@ func smallDomain() *Domain {
 
 // bigDomain: keys 0,1,2 = two further big keys and one short key (the op keys), keys 3.. = the prefill keys;
 // every key hashes to the same partition (found by searching a nonce tag).
-func bigDomain() *Domain {
+//
+// tight: one more key (the last one) whose entry fills segment 0000 up to bigTightFree bytes before its end, so that
+// not even a tombstone fits; the domain then carries its prefix (one call creating the 64 prefill keys and the pad
+// key) and the layout the prefix must produce, like the tiny-segment domains.
+func bigDomain(tight bool) *Domain {
 	pad := strings.Repeat("x", bigPad)
 	d := &Domain{}
 	want := -1
@@ -205,7 +243,155 @@ func bigDomain() *Domain {
 	for i := 0; i < bigPrefill; i++ {
 		mk(true, fmt.Sprintf("p%02d", i))
 	}
+	if !tight {
+		return d
+	}
+	used := tsdb.SeriesSegmentHeaderSize
+	for _, k := range d.Keys[3:] {
+		used += entrySize(k)
+	}
+	target := 4<<20 - used - bigTightFree
+	padKey := func(n, l int) KeyDef {
+		return KeyDef{Name: "big", Tags: [][2]string{{"i", fmt.Sprintf("T-%04d", n)}, {"pad", strings.Repeat("y", l)}}}
+	}
+	l := target - entrySize(padKey(0, 1)) + 1
+	for back := 0; back < 8 && l > 1 && entrySize(padKey(0, l)) != target; back++ {
+		l-- // the length prefixes of the serialised key grow with it
+	}
+	if l < 1 || entrySize(padKey(0, l)) != target {
+		panic(fmt.Sprintf("c13: cannot build the pad key of the tight big domain (entry of %d bytes)", target))
+	}
+	for n := 0; ; n++ {
+		if k := padKey(n, l); partitionOf(k) == want {
+			d.Keys = append(d.Keys, k)
+			d.Part = append(d.Part, want)
+			break
+		}
+	}
+	d.Focus, d.OpKeys = want, 3
+	d.Pre = BigTightPrefix()
+	d.WantSegs, d.WantFree = 1, bigTightFree
 	return d
+}
+
+// ---------------------------------------------------------------------------------------------------------
+// segment-roll domains (tiny-segment build)
+//
+// The first segment of a partition has the fixed size 4 MiB (1 << 22), the next ones 8 MiB, 16 MiB, ..; the check
+// binary is built with that shift as a package variable (h/c13/shim.json) and these domains run with
+// tinySegShift: segment 0000 = 128 bytes, 0001 = 256, 0002 = 512, .. so that a roll-over happens every few entries
+// and the number of bytes left in the newest segment when an entry arrives can be enumerated exhaustively.
+//
+// Entry sizes: tombstone = 9 bytes (flag + id); insert = 9 + serialised key. All keys of a domain hash to ONE
+// partition. Keys: 0 = A (entry of segEntryA bytes), 1 = B (segEntryB bytes), 2 = F0 (first prefill series),
+// 3 = P0 (pad series), then per variant:
+//
+//	seg/a/<f>: prefix create{F0,P0} leaves exactly f bytes free in segment 0000 (1 segment);
+//	seg/b/<f>: prefix create{F0,P0} fills 0000 to the last byte, create{F1,P1} leaves f bytes free in 0001 (2 segments).
+//
+// (DeleteSeriesID of an id that was never handed out writes nothing — the index reports unknown ids as deleted — so
+// a tombstone always belongs to a series created before, and a segment cannot be filled with tombstones alone.)
+const (
+	shippedSegShift = 22
+	tinySegShift    = 7
+	segEntryA       = 23
+	segEntryB       = 40
+	segEntryF       = 23
+	tombstoneSize   = 9
+	segMaxFree      = segEntryB + 1 // free bytes enumerated: 0..segMaxFree (every entry of the alphabet fits / does not fit)
+)
+
+// shippedShiftAtInit is the value the build gives the variable before the harness touches it.
+var shippedShiftAtInit = tsdb.VerifSeriesSegmentMinShift
+
+func entrySize(k KeyDef) int {
+	return len(tsdb.AppendSeriesEntry(nil, tsdb.SeriesEntryInsertFlag, 1, tsdb.AppendSeriesKey(nil, []byte(k.Name), k.mtags())))
+}
+
+// keyOfEntrySize finds a key "s,i=<label><nonce>[,p=xx..x]" whose insert entry has exactly size bytes (0 = any)
+// and which hashes to partition *part (set by the first key when < 0).
+func keyOfEntrySize(label string, size int, part *int) KeyDef {
+	for w := 1; w <= 6; w++ {
+		mk := func(n, pad int) KeyDef {
+			k := KeyDef{Name: "s", Tags: [][2]string{{"i", fmt.Sprintf("%s%0*d", label, w, n)}}}
+			if pad > 0 {
+				k.Tags = append(k.Tags, [2]string{"p", strings.Repeat("x", pad)})
+			}
+			return k
+		}
+		pad := -1
+		for l := 0; l <= size; l++ {
+			if size == 0 || entrySize(mk(0, l)) == size {
+				pad = l
+				break
+			}
+		}
+		if pad < 0 {
+			continue
+		}
+		lim := 1
+		for i := 0; i < w; i++ {
+			lim *= 10
+		}
+		for n := 0; n < lim; n++ {
+			k := mk(n, pad)
+			p := partitionOf(k)
+			if *part < 0 {
+				*part = p
+			}
+			if p == *part {
+				return k
+			}
+		}
+	}
+	panic(fmt.Sprintf("c13: no key with label %s and entry size %d", label, size))
+}
+
+func segSize(id int) int { return 1 << (tinySegShift + id) }
+
+func segDomain(name string) *Domain {
+	f := strings.Split(name, "/")
+	if len(f) != 3 {
+		panic("bad segment-roll domain " + name)
+	}
+	n, err := strconv.Atoi(f[2])
+	if err != nil || n < 0 {
+		panic("bad segment-roll domain " + name)
+	}
+	d := &Domain{Focus: -1, OpKeys: 2}
+	add := func(label string, size int) int {
+		k := keyOfEntrySize(label, size, &d.Focus)
+		d.Keys = append(d.Keys, k)
+		d.Part = append(d.Part, d.Focus)
+		return len(d.Keys) - 1
+	}
+	add("A", segEntryA)
+	add("B", segEntryB)
+	add("F", segEntryF)
+	room0 := segSize(0) - tsdb.SeriesSegmentHeaderSize - segEntryF
+	switch f[1] {
+	case "a":
+		add("P", room0-n)
+		d.Pre = []Op{mkOp(OpCreate, 2, 3)}
+		d.WantSegs, d.WantFree = 1, n
+	case "b":
+		add("P", room0)
+		add("H", segEntryF)
+		add("Q", segSize(1)-tsdb.SeriesSegmentHeaderSize-segEntryF-n)
+		d.Pre = []Op{mkOp(OpCreate, 2, 3), mkOp(OpCreate, 4, 5)}
+		d.WantSegs, d.WantFree = 2, n
+	default:
+		panic("bad segment-roll domain " + name)
+	}
+	return d
+}
+
+// domClass: the domain name without its numeric parameter ("seg/a/12" -> "seg/a").
+func domClass(name string) string {
+	if strings.HasPrefix(name, DomSeg+"/") {
+		return name[:strings.LastIndex(name, "/")]
+	}
+	return name
 }
 
 // ---------------------------------------------------------------------------------------------------------
@@ -255,6 +441,9 @@ type Cfg struct {
 	// Auto: CompactThreshold = 1 on every partition, i.e. the partition starts its own background index
 	// compaction at the end of every creating call; the writer waits for it to finish before the next op.
 	Auto bool `json:"auto,omitempty"`
+	// SegShift: log2 of the size of segment 0000 (0 = the shipped 22 = 4 MiB; the segment-roll domains use
+	// tinySegShift). Set through the build's VerifSeriesSegmentMinShift variable by every openSF.
+	SegShift int `json:"seg_shift,omitempty"`
 }
 
 // OpResult is what an op acknowledged to its caller.
@@ -279,6 +468,11 @@ func (nopAcker) Ack(int, string) {}
 func unknownID(d *Domain, key int) uint64 { return uint64(8*100000 + d.Part[key] + 1) }
 
 func openSF(dir string, cfg Cfg) (*tsdb.SeriesFile, error) {
+	// no series file of this process is open at this point (every case closes its own before the next one starts)
+	tsdb.VerifSeriesSegmentMinShift = shippedSegShift
+	if cfg.SegShift != 0 {
+		tsdb.VerifSeriesSegmentMinShift = uint16(cfg.SegShift)
+	}
 	sf := tsdb.NewSeriesFile(dir)
 	if cfg.Auto {
 		// the default limit is GOMAXPROCS concurrent index compactions per series file: which partitions of a batch
@@ -467,6 +661,11 @@ func (m *Model) Apply(d *Domain, op Op, res OpResult) *Fail {
 						f = orFail(f, failf("create/distinct-keys-same-id", "%s: keys %d and %d both got id %d", op, k2, k, id))
 					}
 				}
+				if top := m.maxUsed(id); id < top {
+					// ids of one partition (one residue class mod 8) are handed out densely in increasing order: an id
+					// below an earlier one re-enters the range of ids already handed out
+					f = orFail(f, failf("create/id-below-earlier-ids", "%s: new series for key %d (%s) got id %d although id %d of the same partition (same residue mod 8) was handed out before", op, k, d.Keys[k], id, top))
+				}
 				fresh[k] = id
 			}
 		}
@@ -493,6 +692,17 @@ func (m *Model) Apply(d *Domain, op Op, res OpResult) *Fail {
 	return nil
 }
 
+// maxUsed returns the largest id handed out so far in the residue class (mod 8) of id.
+func (m *Model) maxUsed(id uint64) uint64 {
+	var top uint64
+	for u := range m.Used {
+		if u%tsdb.SeriesFilePartitionN == id%tsdb.SeriesFilePartitionN && u > top {
+			top = u
+		}
+	}
+	return top
+}
+
 func orFail(a, b *Fail) *Fail {
 	if a != nil {
 		return a
@@ -511,6 +721,11 @@ type Obs struct {
 	Has     []bool            // HasSeries(key)
 	Count   uint64            // SeriesCount()
 	Layout  string            // per touched partition: on-disk index count / in-memory count / segments (state key only)
+	// segment-roll domains (never judged; fixture assertion after the prefix, outcome classes): segments of the focus
+	// partition, free bytes in the newest one, and whether the newest one holds no insert entry
+	Segs           int
+	Free           int
+	NewestNoInsert bool
 }
 
 func keyString(name []byte, tags models.Tags) string {
@@ -571,6 +786,14 @@ func ReadAll(sf *tsdb.SeriesFile, d *Domain, ids []uint64) *Obs {
 		lay = append(lay, fmt.Sprintf("p%d:disk%d/mem%d/seg%d/idx%v", p.ID(), idx.OnDiskCount(), idx.InMemCount(), len(segs), err == nil))
 	}
 	o.Layout = strings.Join(lay, " ")
+	if d.Focus >= 0 {
+		if segs := sf.Partitions()[d.Focus].Segments(); len(segs) > 0 {
+			last := segs[len(segs)-1]
+			o.Segs = len(segs)
+			o.Free = int(tsdb.SeriesSegmentSize(last.ID())) - int(last.Size())
+			o.NewestNoInsert = last.MaxSeriesID() == 0
+		}
+	}
 	return o
 }
 
@@ -665,6 +888,13 @@ func Compare(d *Domain, o *Obs, e Expect) (*Model, *Fail) {
 		for _, id := range m.Dead[k] {
 			if del, asked := o.Deleted[id]; asked && !del {
 				return nil, failf("reverse/deleted-id-not-deleted", "IsDeleted(%d) = false but id %d (key %d %s) was deleted", id, id, k, d.Keys[k])
+			}
+			// the id of a deleted series belongs to that series for ever: SeriesKey may still return its key, or
+			// nothing, but never the complete key of ANOTHER series (the id would have been given away)
+			if got := o.KeyOf[id]; got != "" && got != d.Keys[k].full() {
+				if k2, ok := d.keyByFull(got); ok && k2 != k {
+					return nil, failf("reverse/deleted-id-resolves-to-other-key", "SeriesKey(%d) = %q (key %d) but id %d was handed out to key %d %q, which was deleted since", id, short(got), k2, id, k, short(d.Keys[k].full()))
+				}
 			}
 		}
 	}
@@ -853,6 +1083,9 @@ type runResult struct {
 	Steps    int64
 	Model    *Model
 	CountRel string
+	// segment-roll domains: roll-overs caused by the ops (not the prefix) / by the closing phase, and reopens (ops or
+	// closing phase) that found the newest segment without any insert entry
+	Rolls, TailRolls, InsertlessReopens int
 }
 
 func modelKey(d *Domain, m *Model) string {
@@ -896,6 +1129,7 @@ func runCase(base string, cs Case) (rr runResult) {
 	rr.Model = m
 	all := append(append([]Op(nil), cs.Pre...), cs.Ops...)
 	var sf *tsdb.SeriesFile
+	lastObs := &Obs{}
 	p, desc := vlib.Guard(func() {
 		_, sf, err = PerformHistory(dir, cs.Cfg, all, nil, func(step int, op Op, res OpResult, sf *tsdb.SeriesFile) bool {
 			rr.Step = step
@@ -915,6 +1149,27 @@ func runCase(base string, cs Case) (rr runResult) {
 				rr.Fail = f
 				return false
 			}
+			if d.Focus >= 0 && step == len(cs.Pre)-1 && (o.Segs != d.WantSegs || o.Free != d.WantFree) {
+				rr.Fail = failf("harness", "fixture: after the prefix the focus partition has %d segment(s) with %d bytes free in the newest, the domain %s is built for %d / %d (segment size %d)", o.Segs, o.Free, d.Name, d.WantSegs, d.WantFree, tsdb.SeriesSegmentSize(0))
+				return false
+			}
+			if d.Focus >= 0 && step >= len(cs.Pre) {
+				if o.Segs > lastObs.Segs {
+					rr.Rolls += o.Segs - lastObs.Segs
+					first := "insert"
+					if op.Kind == OpDelete {
+						first = "tombstone"
+					}
+					rr.Outcomes = append(rr.Outcomes, fmt.Sprintf("roll-over:first-entry-of-new-segment=%s/free-before=%s", first, freeClass(lastObs.Free)))
+				}
+				if op.Kind == OpReopen {
+					if lastObs.NewestNoInsert {
+						rr.InsertlessReopens++
+					}
+					rr.Outcomes = append(rr.Outcomes, fmt.Sprintf("reopen:segments=%d/newest-without-insert=%v", min(lastObs.Segs, 4), lastObs.NewestNoInsert))
+				}
+			}
+			lastObs = o
 			if step >= len(cs.Pre) {
 				oc := op.Kind
 				switch op.Kind {
@@ -973,15 +1228,56 @@ func runCase(base string, cs Case) (rr runResult) {
 	if p {
 		rr.Fail = &Fail{Clause: "panic", Why: desc}
 	}
+	if d.Focus >= 0 {
+		if lastObs.NewestNoInsert {
+			rr.InsertlessReopens++
+		}
+		rr.Outcomes = append(rr.Outcomes, fmt.Sprintf("closing-reopen:segments=%d/newest-without-insert=%v", min(lastObs.Segs, 4), lastObs.NewestNoInsert))
+		if n := countSegmentFiles(filepath.Join(dir, fmt.Sprintf("%02x", d.Focus))); n > lastObs.Segs && lastObs.Segs > 0 {
+			rr.TailRolls = n - lastObs.Segs
+			rr.Outcomes = append(rr.Outcomes, "closing-create:roll-over")
+		}
+	}
 	rr.Steps += int64(1 + cs.Tail)
 	return
 }
 
-// tailKeys: the keys the closing phase creates again (the op keys; for the big domain not the prefill keys).
+// freeClass: free bytes of the newest segment relative to the entry sizes of the segment-roll alphabet.
+func freeClass(free int) string {
+	switch {
+	case free < tombstoneSize:
+		return "nothing-fits"
+	case free < segEntryA:
+		return "tombstone-fits"
+	case free < segEntryB:
+		return "short-insert-fits"
+	case free <= segMaxFree:
+		return "all-fit"
+	}
+	return "ample"
+}
+
+// countSegmentFiles counts the segment files (4 hex digits) of a partition directory.
+func countSegmentFiles(dir string) int {
+	des, _ := os.ReadDir(dir)
+	n := 0
+	for _, de := range des {
+		if _, err := tsdb.ParseSeriesSegmentFilename(de.Name()); err == nil {
+			n++
+		}
+	}
+	return n
+}
+
+// tailKeys: the keys the closing phase creates again (the op keys; for the big and segment-roll domains not the
+// prefill keys).
 func tailKeys(d *Domain) []int {
 	n := len(d.Keys)
 	if d.Name == DomBig {
 		n = 3
+	}
+	if d.OpKeys > 0 {
+		n = d.OpKeys
 	}
 	ks := make([]int, n)
 	for i := range ks {
@@ -1013,7 +1309,7 @@ func sigOf(cs Case, rr runResult) string {
 	if clause == "panic" {
 		clause = "panic/" + strings.TrimPrefix(rr.Fail.Why[strings.LastIndex(rr.Fail.Why, "@ ")+2:], "github.com/influxdata/influxdb/v2/")
 	}
-	return vlib.JoinSig(clause, where, fmt.Sprintf("dom=%s,auto=%v,reopen=%v,compact=%v,delete=%v", cs.Cfg.Domain, cs.Cfg.Auto, re, co || cs.Cfg.Auto, de))
+	return vlib.JoinSig(clause, where, fmt.Sprintf("dom=%s,auto=%v,reopen=%v,compact=%v,delete=%v", domClass(cs.Cfg.Domain), cs.Cfg.Auto, re, co || cs.Cfg.Auto, de))
 }
 
 // ---------------------------------------------------------------------------------------------------------
@@ -1069,6 +1365,9 @@ func BigPrefix() []Op {
 	return []Op{{Kind: OpCreate, Keys: ks}}
 }
 
+// BigTightPrefix: one call creating the 64 prefill keys and the pad key of the tight big domain.
+func BigTightPrefix() []Op { return []Op{mkOp(OpCreate, seqKeys(3, bigPrefill+1)...)} }
+
 func BigAlphabet() []Op {
 	return []Op{
 		{Kind: OpCreate, Keys: []int{0}}, // big: does not fit segment 0000 any more
@@ -1089,6 +1388,51 @@ type family struct {
 	alphabet []Op
 	minLen   int
 	maxLen   int
+}
+
+// preIDs: the number of ids the prefix of a family hands out.
+func (f family) preIDs() int {
+	seen := map[int]bool{}
+	for _, op := range f.pre {
+		if op.Kind == OpCreate {
+			for _, k := range op.Keys {
+				seen[k] = true
+			}
+		}
+	}
+	return len(seen)
+}
+
+// SegAlphabet: the ops around a roll-over in the segment-roll domains. With f bytes free in the newest segment:
+// create A needs segEntryA, create B segEntryB, create{A,B} rolls between its two entries when only A fits, each
+// delete of a live series needs tombstoneSize bytes (two prefill series can be deleted: two tombstones).
+func SegAlphabet() []Op {
+	return []Op{
+		mkOp(OpCreate, 0), mkOp(OpCreate, 1), mkOp(OpCreate, 0, 1),
+		mkOp(OpDelete, 0), // A (while A was never created: an id never handed out, nothing is written)
+		mkOp(OpDelete, 2), // F0: the first series of segment 0000
+		mkOp(OpDelete, 3), // P0: the last series of segment 0000
+		mkOp(OpReopen), mkOp(OpCompact),
+	}
+}
+
+// segFamilies: one family per (variant, parameter) of the segment-roll domains, every sequence of length <= maxLen.
+func segFamilies(variant string, params []int, maxLen int) []family {
+	var out []family
+	for _, n := range params {
+		name := fmt.Sprintf("%s/%s/%d", DomSeg, variant, n)
+		d := getDomain(name)
+		out = append(out, family{"segroll-" + variant, Cfg{Domain: name, SegShift: tinySegShift}, d.Pre, SegAlphabet(), 0, maxLen})
+	}
+	return out
+}
+
+func intRange(lo, hi int) []int {
+	var out []int
+	for i := lo; i <= hi; i++ {
+		out = append(out, i)
+	}
+	return out
 }
 
 func envInt(name string, def int) int {
@@ -1118,29 +1462,43 @@ func PairAlphabet(withCompact bool) []Op {
 // families in visiting order (simplest first). Sequences of length < minLen of a deep family are covered by
 // the full-alphabet family of the same configuration (the deep alphabet is a subset).
 func families(thorough bool) []family {
-	ex, au, ro := Cfg{Domain: DomSmall}, Cfg{Domain: DomSmall, Auto: true}, Cfg{Domain: DomBig}
+	ex, au, ro, ti := Cfg{Domain: DomSmall}, Cfg{Domain: DomSmall, Auto: true}, Cfg{Domain: DomBig}, Cfg{Domain: DomTight}
 	if d := envInt("C13_DEPTH", -1); d >= 0 {
 		return []family{{"explicit", ex, nil, SmallAlphabet(true), 0, d}}
 	}
 	if !thorough {
-		return []family{
-			{"explicit", ex, nil, SmallAlphabet(true), 0, 3},
-			{"auto", au, nil, SmallAlphabet(false), 0, 2},
-			{"roll", ro, BigPrefix(), BigAlphabet(), 0, 2},
-			{"explicit-pair", ex, nil, PairAlphabet(true), 4, 4},
-			{"auto-pair", au, nil, PairAlphabet(false), 3, 3},
-		}
+		fams := []family{{"explicit", ex, nil, SmallAlphabet(true), 0, 2}}
+		// segment-roll families first among the longer ones: tiny files, a few ms per history
+		fams = append(fams, segFamilies("a", intRange(0, segMaxFree), 2)...)
+		fams = append(fams, segFamilies("b", []int{0, 4, tombstoneSize, segEntryA, segEntryB}, 2)...)
+		return append(fams,
+			family{"explicit", ex, nil, SmallAlphabet(true), 3, 3},
+			family{"auto", au, nil, SmallAlphabet(false), 0, 2},
+			family{"roll", ro, BigPrefix(), BigAlphabet(), 0, 2},
+			family{"roll-tight", ti, BigTightPrefix(), BigAlphabet(), 0, 1},
+			family{"explicit-pair", ex, nil, PairAlphabet(true), 4, 4},
+			family{"auto-pair", au, nil, PairAlphabet(false), 3, 3},
+		)
 	}
-	return []family{
-		{"explicit", ex, nil, SmallAlphabet(true), 0, 4},
-		{"auto", au, nil, SmallAlphabet(false), 0, 3},
-		{"roll", ro, BigPrefix(), BigAlphabet(), 0, 3},
-		{"explicit-pair", ex, nil, PairAlphabet(true), 5, 5},
-		{"auto-pair", au, nil, PairAlphabet(false), 4, 4},
-		{"roll", ro, BigPrefix(), BigAlphabet(), 4, 4},
-		{"auto-pair", au, nil, PairAlphabet(false), 5, 5},
-		{"explicit-pair", ex, nil, PairAlphabet(true), 6, 6},
+	fams := []family{{"explicit", ex, nil, SmallAlphabet(true), 0, 3}}
+	fams = append(fams, segFamilies("a", intRange(0, segMaxFree), 2)...)
+	fams = append(fams, segFamilies("b", intRange(0, segMaxFree), 2)...)
+	fams = append(fams,
+		family{"explicit", ex, nil, SmallAlphabet(true), 4, 4},
+		family{"auto", au, nil, SmallAlphabet(false), 0, 3},
+		family{"roll", ro, BigPrefix(), BigAlphabet(), 0, 3},
+		family{"roll-tight", ti, BigTightPrefix(), BigAlphabet(), 0, 2})
+	for _, f := range segFamilies("a", intRange(0, segMaxFree), 3) {
+		f.minLen = 3
+		fams = append(fams, f)
 	}
+	return append(fams,
+		family{"explicit-pair", ex, nil, PairAlphabet(true), 5, 5},
+		family{"auto-pair", au, nil, PairAlphabet(false), 4, 4},
+		family{"roll", ro, BigPrefix(), BigAlphabet(), 4, 4},
+		family{"auto-pair", au, nil, PairAlphabet(false), 5, 5},
+		family{"explicit-pair", ex, nil, PairAlphabet(true), 6, 6},
+	)
 }
 
 // =========================================================================================================
@@ -1246,6 +1604,42 @@ func crashHistories(tier string) []CrashHistory {
 	// ids crossing a byte boundary: 32 series in partition 7 (ids 8..0x100) acknowledged, then create (id 0x108),
 	// delete of it, create of two (0x110, 0x118), delete of the series with id 0x100, re-creation
 	add(CrashHistory{Name: "id-byte-boundary", Cfg: p7, Ops: []Op{mkOp(OpCreate, seqKeys(0, 32)...), mkOp(OpCreate, 32), mkOp(OpDelete, 32), mkOp(OpCreate, 33, 32), mkOp(OpDelete, 31), mkOp(OpCreate, 31)}, From: 1}, 3)
+	// segment roll-over in the tiny-segment build (segment 0000 = 128 bytes), cuts from the first op after the prefix on
+	// (the prefix create{F0,P0} leaves f bytes free in 0000):
+	//  - tombstone: f < 9, the delete of F0 does not fit: 0001 is created for a tombstone and holds no insert entry
+	//    (cuts inside the delete; inside the following create of A before its entry reaches 0001; reopen; more ops);
+	//  - insert: 9 <= f < 23, create A does not fit: 0001.initializing written, synced, renamed, then the entry is
+	//    appended (cuts with an empty newest segment), then a delete of A (0001 = insert + tombstone) and create B;
+	//  - batch: 23 <= f < 40, create{A,B} in one call: A is appended to 0000, B rolls over to 0001.
+	segH := func(kind string, f int, ops ...Op) CrashHistory {
+		name := fmt.Sprintf("%s/a/%d", DomSeg, f)
+		pre := getDomain(name).Pre
+		return CrashHistory{Name: fmt.Sprintf("seg-roll-%s-free%d", kind, f), Cfg: Cfg{Domain: name, SegShift: tinySegShift}, Ops: append(append([]Op(nil), pre...), ops...), From: len(pre)}
+	}
+	segTomb := func(f int) CrashHistory {
+		return segH("tombstone", f, mkOp(OpDelete, 2), mkOp(OpCreate, 0), mkOp(OpReopen), mkOp(OpDelete, 3), mkOp(OpCreate, 1))
+	}
+	segIns := func(f int) CrashHistory {
+		return segH("insert", f, mkOp(OpCreate, 0), mkOp(OpDelete, 0), mkOp(OpCreate, 1), mkOp(OpDelete, 2))
+	}
+	segBatch := func(f int) CrashHistory {
+		return segH("batch", f, mkOp(OpCreate, 0, 1), mkOp(OpDelete, 0), mkOp(OpCreate, 0))
+	}
+	if !thorough {
+		add(segTomb(4))
+		add(segIns(12))
+		add(segBatch(30))
+	} else {
+		for _, f := range []int{0, 4, tombstoneSize - 1} {
+			add(segTomb(f))
+		}
+		for _, f := range []int{0, tombstoneSize, 12, segEntryA - 1} {
+			add(segIns(f))
+		}
+		for _, f := range []int{segEntryA, 30, segEntryB - 1} {
+			add(segBatch(f))
+		}
+	}
 	if !thorough {
 		// explicit index compaction (index.compacting written, synced, renamed over index) of the partition of K0/K1
 		// with a live and a deleted series; entries behind the compacted index; second compaction over an existing index
@@ -1597,7 +1991,7 @@ func crashHistoryKey(h CrashHistory) string {
 }
 
 func cacheCrashLog(h CrashHistory, l *crashfs.Log) {
-	if h.Cfg.Domain == DomBig {
+	if h.Cfg.Domain == DomBig || h.Cfg.Domain == DomTight {
 		return // 4 MiB of payload: not kept
 	}
 	crashLogMu.Lock()
@@ -2074,8 +2468,9 @@ func runCrash(c *vlib.Ctx) {
 	scratch := vlib.Scratch("c13c-")
 	defer os.RemoveAll(scratch)
 	crashDeadline = time.Now().Add(crashShare(c))
+	only := os.Getenv("C13_CRASH_ONLY") // development aid: only the histories whose name contains this
 	for hi, h := range crashHistories(c.Tier) {
-		if !c.Mine(int64(hi)) {
+		if !c.Mine(int64(hi)) || !strings.Contains(h.Name, only) {
 			continue
 		}
 		if crashExpired(c) {
@@ -2440,18 +2835,23 @@ func TestCheck(t *testing.T) {
 	}
 	vlib.Main(t, &vlib.Check{
 		ID: "C13", Level: "model_checking", QuickBudgetS: 60, ThoroughBudgetS: 780, WorkerEnv: []string{"GOMAXPROCS=1"},
-		Rule: "every op sequence within the stated length bounds, each executed from scratch on the real tsdb.SeriesFile (8 partitions) in a fresh directory, in five families (visited in this order; a run that hits its wall budget says which family it stopped in). " +
+		Rule: "every op sequence within the stated length bounds, each executed from scratch on the real tsdb.SeriesFile (8 partitions) in a fresh directory, in eight families (visited simplest first: explicit up to length 2 / 3, then the segment-roll families up to length 2, then the rest in the order given here, thorough: segroll-a length 3 after roll-tight; a run that hits its wall budget says which family it stopped in). " +
 			"(explicit: length <= 3 quick / <= 4 thorough) 13-op alphabet over 4 keys K0..K3 (K0,K1 in one partition, K2,K3 in two others): create{K0},{K1},{K2},{K3}, batch create {K0,K1}, {K1,K1} (duplicate inside one call), {K3,K0,K1,K2,K0}; DeleteSeriesID(id last returned for Ki) for i=0..3 (an id never handed out when Ki was never created; the same id again when already deleted); reopen (Close + new SeriesFile + Open); compact (SeriesPartitionCompactor.Compact on all 8 partitions: index rebuilt to index.compacting, renamed, in-memory tail replayed). " +
 			"(auto: length <= 2 / <= 3) the same alphabet without the explicit compact but with CompactThreshold=1: every creating call starts the partition's own background index compaction, which is awaited. " +
 			"(roll: length <= 2 / <= 4) all keys in one partition; fixed prefix = one call creating 64 keys of 65 KB that fill the fixed 4 MiB segment 0000 to within half an entry; then every sequence over {create big A, create big B (do not fit: roll to segment 0001), create short key (fits), delete A, delete short, delete first prefill key, reopen, compact}. " +
+			"(roll-tight: length <= 1 / <= 2) the same 8 ops at the SHIPPED segment size after a prefix that fills segment 0000 up to 4 bytes before its end (64 keys of 65 KB + one pad key of about 32 KB in one call; the harness asserts 1 segment / 4 bytes free): not even a tombstone fits, so a delete is the entry that opens segment 0001. " +
+			"(segroll-a, segroll-b: SEGMENT ROLL-OVER in the tiny-segment build) h/c13/shim.json turns the constant first-segment shift 22 of tsdb.SeriesSegmentSize into a package variable with the same initial value (asserted: 4 MiB / 8 MiB before the harness touches it); these families run with shift 7 (segment 0000 = 128 bytes, 0001 = 256, 0002 = 512), all keys in one partition, entries: tombstone 9 bytes, insert A 23, insert B 40. One family per number f of bytes left free in the newest segment, for EVERY f = 0..41 (so that for each entry of the alphabet both 'fits' and 'does not fit' and every combination occur): segroll-a/f: prefix create{F0,P0} leaves f bytes in 0000; segroll-b/f: prefix create{F0,P0} fills 0000 to the last byte and create{F1,P1} leaves f bytes in 0001 (the harness asserts the number of segments and the free bytes after the prefix through SeriesPartition.Segments). Then every sequence of length <= 2 (quick; segroll-b only f in {0,4,9,23,40}) / <= 3 (thorough; segroll-b <= 2, every f) over {create A, create B, create{A,B} in one call (rolls between its two entries when only A fits), delete A, delete F0, delete P0, reopen, compact}: roll-overs whose first entry in the new segment is an insert or a TOMBSTONE (then the newest segment holds no insert entry), followed by reopen and further creates; the closing phase always reopens and creates A and B again. Outcome classes record which kind of entry opened a new segment and whether a reopen (op or closing phase) found the newest segment without insert entry; non-trivial for these families = a roll-over caused by the ops. " +
 			"(explicit-pair: length exactly 4 quick / 5 and 6 thorough) 6-op alphabet over the two keys sharing a partition {create K0, create K1, delete K0, delete K1, reopen, compact}; (auto-pair: length 3 / 4,5) the same without compact and with CompactThreshold=1. " +
-			"After EVERY step: returned ids judged by the model (same key -> same id; two occurrences in one call -> same id; distinct keys -> distinct ids; new or re-created key -> id never handed out before, non-zero), then SeriesID/HasSeries of every key of the domain (live -> its id; deleted or never created -> 0), SeriesKey(id) of every live id parses back to its key, IsDeleted false for live and true for deleted ids. After the last step the recovery checker: Close, Open, read all, create all op keys again in one call (live keep ids, others get never-used ids), read all; thorough additionally Close, Open, read all. " +
+			"After EVERY step: returned ids judged by the model (same key -> same id; two occurrences in one call -> same id; distinct keys -> distinct ids; new or re-created key -> id never handed out before, non-zero, and not below an id handed out before in the same residue class mod 8 = partition), then SeriesID/HasSeries of every key of the domain (live -> its id; deleted or never created -> 0), SeriesKey(id) of every live id parses back to its key, IsDeleted false for live and true for deleted ids, SeriesKey(id) of a deleted id is never the complete key of ANOTHER key of the domain. After the last step the recovery checker: Close, Open, read all, create all op keys again in one call (live keep ids, others get never-used ids), read all; thorough additionally Close, Open, read all. " +
 			"State = canonical model state (per key never/live/deleted + number of incarnations) + file layout (per touched partition: on-disk index count, in-memory count, number of segments, index file present); transition = one executed op; trace = one complete history validated on the implementation. Non-trivial = histories that create at least one series (distinct by construction). " +
 			"SCHEDULE PART (engine vsched; both tiers, after the crash family): series file with CompactThreshold=1, so a creating call starts the partition's background index compaction (go Compact: segment snapshot under RLock, index rebuilt without a lock, swap + replay of the entries since the snapshot under Lock) and returns; ONE writer thread then runs every program of length 2 (quick; thorough: 1, 2 and 3) over {create K0, create K1, create {K0,K1}, delete K0, delete K1} (K0, K1 in one partition) from 3 initial contents {empty, K0, K0+K1} (index compacted), nothing awaited between its calls; tsdb/series_partition.go is compiled against the modelled sync and EVERY schedule with <= 2 preemptions (thorough: 2 / 3 / 2) is executed at the decision points = every write Lock of the partition, the compactor's snapshot RLock and the writer's op boundaries (thorough additionally, after the sequence families with the budget they leave: programs of length 2 with <= 1 preemption at every Lock and RLock, i.e. also the 8 per-partition lookups of every call). When the writer has finished the scheduler is drained, compactions are awaited, the returned ids are judged by the model, SeriesID/HasSeries/SeriesKey/IsDeleted of every key and id are compared exactly, every key is created once more (live keep ids, others get never-used ids) and compared again (no reopen: a reopen re-reads the segments). Deadlock and step cap are violations. For this part states = decision nodes of the schedule trees, transitions = scheduling steps, traces = executions; non-trivial = executions with >= 1 preemption. " +
-			"CRASH FAMILY (additional clause, engine crashfs; counted under the crash_* coverage keys and the crash:* outcomes, not under states/transitions/traces): histories performed by a writer subprocess (PerformHistory on the real SeriesFile, GOMAXPROCS=1) under strace with BEGIN/ACK markers around the initial Open of the empty directory and every op; the process exits without closing. Quick: 5 hand-picked histories, every cut (open-create-batch: initial Open of 8 partitions, single create, create of a live + a new key of one partition, batch over 3 partitions with a repeat; delete-recreate: 8 ops with tombstones, re-creation, reopen, delete of a deleted id; id-byte-boundary: 32 series in partition 7 (ids 8..0x100) acknowledged in one call, then create (id 0x108), delete of it, create of two, delete of id 0x100, re-creation — cuts from op 1 on; compact: explicit index compaction of one partition twice (index.compacting written, fsynced, renamed over index) with live, deleted and later entries; auto-compact: CompactThreshold=1, background compaction inside the creating call), split into 10 work items by op window (each item re-records the history and evaluates the cuts of its ops only). Thorough: longer versions of these (one work item per op), the whole 32-entry prefill write of id-byte-boundary, compaction of all 8 partitions, a segment-roll history (64 keys of 65 KB fill segment 0000; big key A rolls to 0001, short key, delete, big key B, delete of a prefill key; images built one by one from descriptors for the cuts from op 1 on: every P cut, torn lengths 1..64, every 4096th, last 64 of each write, and the drop-all U image of every cut), plus EVERY sequence of length 1..2 over the 8-op crash alphabet {create K0, K1, {K0,K1}, {K3,K0,K1,K2,K0}, delete K0, delete K1, reopen, compact(partition of K0)} and of length 3 over its 6-op same-partition part (cuts of the last op only, so every (prefix, cut) is evaluated once). Per history every prefix of the syscall-level event list (P), every torn length 1..n-1 of the write in flight (T; all writes of the non-roll histories are < 4096 bytes: no subsampling), and for the sync classes (segment files 0000.., also under their .initializing name; index and index.compacting) the images with un-fsynced data dropped or its last write torn (U); directory operations in program order; images deduplicated by (content, acknowledged ops, op in flight). One evaluation = one (image, acknowledgement context) recovered in a fresh subprocess by CheckRecovery: real SeriesFile.Open on the image; SeriesID/HasSeries of every key, SeriesKey/IsDeleted of every id ever acknowledged; re-creation of every key of the domain in one call; read all; Close; Open (second restart); read all. Crash oracle: Open succeeds; every series acknowledged before the cut keeps (key, id) (SeriesID(key) = id, SeriesKey(id) = key, not deleted), every acknowledged (flushed) delete stays deleted; keys of a create in flight are absent or live with a never-acknowledged id whose SeriesKey is the key; the target of a delete in flight is live with its id or deleted; keys created after the recovery get ids never acknowledged before, distinct, and all of this is unchanged after the second restart. Non-trivial crash case = at least one series acknowledged before the cut.",
+			"CRASH FAMILY (additional clause, engine crashfs; counted under the crash_* coverage keys and the crash:* outcomes, not under states/transitions/traces): histories performed by a writer subprocess (PerformHistory on the real SeriesFile, GOMAXPROCS=1) under strace with BEGIN/ACK markers around the initial Open of the empty directory and every op; the process exits without closing. Quick: 8 hand-picked histories, every cut (seg-roll-tombstone-free4 / seg-roll-insert-free12 / seg-roll-batch-free30, tiny-segment build, cuts from the first op after the prefix create{F0,P0} on: 4 bytes free, delete F0 = the tombstone opens 0001 (0001.initializing created, header written, truncated, fsynced, renamed, then the entry appended and fsynced), create A into 0001, reopen, delete P0, create B; 12 bytes free, create A opens 0001 — cuts with an EMPTY newest segment —, delete A, create B, delete F0; 30 bytes free, create{A,B} in one call: A appended to 0000, B opens 0001, then delete A, create A; open-create-batch: initial Open of 8 partitions, single create, create of a live + a new key of one partition, batch over 3 partitions with a repeat; delete-recreate: 8 ops with tombstones, re-creation, reopen, delete of a deleted id; id-byte-boundary: 32 series in partition 7 (ids 8..0x100) acknowledged in one call, then create (id 0x108), delete of it, create of two, delete of id 0x100, re-creation — cuts from op 1 on; compact: explicit index compaction of one partition twice (index.compacting written, fsynced, renamed over index) with live, deleted and later entries; auto-compact: CompactThreshold=1, background compaction inside the creating call), split into 13 work items by op window (each item re-records the history and evaluates the cuts of its ops only). Thorough: longer versions of these (one work item per op; the seg-roll histories for f in {0,4,8} tombstone, {0,9,12,22} insert, {23,30,39} batch), the whole 32-entry prefill write of id-byte-boundary, compaction of all 8 partitions, a segment-roll history (64 keys of 65 KB fill segment 0000; big key A rolls to 0001, short key, delete, big key B, delete of a prefill key; images built one by one from descriptors for the cuts from op 1 on: every P cut, torn lengths 1..64, every 4096th, last 64 of each write, and the drop-all U image of every cut), plus EVERY sequence of length 1..2 over the 8-op crash alphabet {create K0, K1, {K0,K1}, {K3,K0,K1,K2,K0}, delete K0, delete K1, reopen, compact(partition of K0)} and of length 3 over its 6-op same-partition part (cuts of the last op only, so every (prefix, cut) is evaluated once). Per history every prefix of the syscall-level event list (P), every torn length 1..n-1 of the write in flight (T; all writes of the non-roll histories are < 4096 bytes: no subsampling), and for the sync classes (segment files 0000.., also under their .initializing name; index and index.compacting) the images with un-fsynced data dropped or its last write torn (U); directory operations in program order; images deduplicated by (content, acknowledged ops, op in flight). One evaluation = one (image, acknowledgement context) recovered in a fresh subprocess by CheckRecovery: real SeriesFile.Open on the image; SeriesID/HasSeries of every key, SeriesKey/IsDeleted of every id ever acknowledged; re-creation of every key of the domain in one call; read all; Close; Open (second restart); read all. Crash oracle: Open succeeds; every series acknowledged before the cut keeps (key, id) (SeriesID(key) = id, SeriesKey(id) = key, not deleted), every acknowledged (flushed) delete stays deleted; keys of a create in flight are absent or live with a never-acknowledged id whose SeriesKey is the key; the target of a delete in flight is live with its id or deleted; keys created after the recovery get ids never acknowledged before, distinct, and all of this is unchanged after the second restart. Non-trivial crash case = at least one series acknowledged before the cut.",
 		Assumptions: []string{
 			"SeriesCount is not judged (the statement does not define it; it counts deleted series until the next index compaction) — only recorded as an outcome class",
-			"SeriesKey(id) of a deleted id and id == partition+1 (mod 8) are not judged (statement silent); a wrong congruence shows up as SeriesKey/IsDeleted of a live id being routed to the wrong partition",
+			"SeriesKey(id) of a deleted id may be its old key or nothing (statement silent) but not the complete key of another key of the domain (that id would have been given away); id == partition+1 (mod 8) is not judged; a wrong congruence shows up as SeriesKey/IsDeleted of a live id being routed to the wrong partition",
+			"'a new id is not below an earlier id of the same residue class mod 8' is judged after (and only reported when none of) the reuse clauses: ids of a partition are handed out densely in increasing order (anchor SeriesPartition.seq = next id), so in every history here an id below an earlier one lies in the range already handed out",
+			"segment-roll families and seg-roll crash histories run the real code with ONE constant changed through the build overlay (first-segment size 128 bytes instead of 4 MiB, doubling per segment as shipped); the roll-tight family and the thorough segment-roll crash history exercise a roll-over at the shipped size",
+			"DeleteSeriesID of an id never handed out writes no tombstone (the index reports unknown ids as deleted), so a segment holding tombstones only is reachable only as the newest segment right after a roll-over caused by a delete; two such segments in a row are not reachable through the API",
 			"deleting an id that was never handed out, or twice, must not change any key->id mapping (it is executed; its own return value is not judged)",
 			"index compaction = SeriesPartitionCompactor.Compact (explicit, synchronous) or the partition's own background compaction awaited via Compacting(); the offline segment rewrite SeriesSegment.CompactToPath (influxd inspect) is out of scope",
 			"the key->partition choice of the fixture (xxhash of the serialised key mod 8) is only used to pick keys sharing a partition",
@@ -2464,6 +2864,11 @@ func TestCheck(t *testing.T) {
 			"the crash family runs first and may use at most half of the wall budget (30 s quick / 390 s thorough); beyond that it is capped (exhaustive:false), never an alarm",
 		},
 		Run: func(c *vlib.Ctx) {
+			tsdb.VerifSeriesSegmentMinShift = shippedShiftAtInit
+			if shippedShiftAtInit != shippedSegShift || tsdb.SeriesSegmentSize(0) != 4<<20 || tsdb.SeriesSegmentSize(1) != 8<<20 {
+				c.HarnessError(fmt.Sprintf("the build's first-segment shift is %d (segment sizes %d, %d), the harness expects the shipped 22 (4 MiB, 8 MiB): shim.json out of date", shippedShiftAtInit, tsdb.SeriesSegmentSize(0), tsdb.SeriesSegmentSize(1)))
+				return
+			}
 			runCrash(c)               // crash family first: of fixed size, so a budget cap always lands in the sequence families
 			runSchedules(t, c, false) // schedule part: small
 			if os.Getenv("C13_ONLY") == "sched" {
@@ -2480,10 +2885,15 @@ func TestCheck(t *testing.T) {
 			if c.Thorough() {
 				tail = 2
 			}
+			onlyFam := os.Getenv("C13_FAMILY") // development aid: only the families whose name contains this
 			for _, fam := range families(c.Thorough()) {
 				fam := fam
+				if !strings.Contains(fam.name, onlyFam) {
+					continue
+				}
 				capped := false
 				getDomain(fam.cfg.Domain)
+				preIDs := fam.preIDs()
 				forEachSeq(fam.alphabet, fam.minLen, fam.maxLen, func(ops []Op) bool {
 					idx++
 					if !c.Mine(idx) {
@@ -2501,7 +2911,21 @@ func TestCheck(t *testing.T) {
 					for _, s := range rr.States {
 						c.State(fam.name + "|" + s)
 					}
-					if rr.Model != nil && len(rr.Model.Used) > len(fam.pre)*bigPrefill {
+					switch {
+					case getDomain(fam.cfg.Domain).Focus >= 0:
+						// the new dimension: a roll-over caused by the ops (distinct by construction)
+						if rr.Rolls > 0 {
+							c.NontrivialN(1)
+							c.Extra("segroll_histories_with_roll_over_in_ops", 1)
+						}
+						c.Extra("segroll_histories", 1)
+						if rr.TailRolls > 0 {
+							c.Extra("segroll_histories_with_roll_over_in_closing_phase", 1)
+						}
+						if rr.InsertlessReopens > 0 {
+							c.Extra("segroll_histories_reopened_with_insertless_newest_segment", 1)
+						}
+					case rr.Model != nil && len(rr.Model.Used) > preIDs:
 						c.NontrivialN(1)
 					}
 					for _, o := range rr.Outcomes {
@@ -2511,7 +2935,7 @@ func TestCheck(t *testing.T) {
 						c.Outcome(fam.name + ":final:" + rr.CountRel)
 					}
 					if rr.Fail == nil {
-						c.Outcome(fmt.Sprintf("%s:end:%d-live/%d-ids-used", fam.name, min(len(rr.Model.Live), 5), min(len(rr.Model.Used)-len(fam.pre)*bigPrefill, 6)))
+						c.Outcome(fmt.Sprintf("%s:end:%d-live/%d-ids-used", fam.name, min(len(rr.Model.Live), 5), min(len(rr.Model.Used)-preIDs, 6)))
 						if c.WantSample() && len(ops) >= 3 && len(rr.Model.Dead) > 0 && len(rr.Model.Live) > 1 {
 							c.Sample(map[string]any{"family": fam.name, "ops": opsString(ops), "live": fmt.Sprint(rr.Model.Live), "deleted": fmt.Sprint(rr.Model.Dead)})
 						}
